@@ -1536,6 +1536,11 @@ def _broadcast_arithmetic(op):
     """
     def _broadcast_arithmetic_impl(self, other):
         if (self.space.is_power_space and other in self.space[0]):
+            if op.startswith('__i') and any(xi is other for xi in self):
+                # In-place operation with one of the parts as operand: that
+                # part would change while the others are still to be updated
+                other = other.copy()
+
             results = []
             for xi in self:
                 res = getattr(xi, op)(other)
